@@ -1,6 +1,6 @@
 (* C07 - A failing or stalling component aborts startup cleanly with a precise error. *)
 From Coq Require Import List Bool Arith.
-From Asphalt Require Import Conc.Skeleton Conc.Startup Conc.StartupProofs.
+From Asphalt Require Import Conc.Skeleton Conc.Startup Conc.StartupProofs Conc.StartupTie Gen.Gen_startup.
 Import ListNotations.
 
 (* a failing component aborts with ComponentStartError(phase, that component) from the original
@@ -45,3 +45,10 @@ Theorem C07_status_sound : forall P timeout gs,
   let '(s, tr) := start_run P timeout gs in sok s /\ length (phs s) = length P.
 Proof. exact run_sok. Qed.
 Print Assumptions C07_status_sound.
+
+(* an Exception (only) out of prepare() / start() is wrapped into ComponentStartError carrying the phase word
+   of that block, the component's path and class -- as read from _start_component on this run *)
+Theorem C07_error_wrapping_in_source :
+  startup_prepare_phase_word_ok = true /\ startup_start_phase_word_ok = true /\ startup_wraps_exceptions_only = true.
+Proof. exact error_wrapping_in_source. Qed.
+Print Assumptions C07_error_wrapping_in_source.
